@@ -32,6 +32,7 @@ import (
 	"time"
 
 	"github.com/google/martian/v3"
+	"github.com/google/martian/v3/h2"
 	"github.com/google/martian/v3/mitm"
 
 	"verifharness/internal/kit"
@@ -46,7 +47,7 @@ func TestMain(m *testing.M) { kit.Main(m, "C06") }
 type Host struct {
 	Spelling string `json:"spelling"`       // the CONNECT authority handed to TLSForHost
 	Name     string `json:"name"`           // what the client names: no port, no brackets
-	Class    string `json:"class"`          // dns-lower | dns-mixed | ipv4 | ipv6
+	Class    string `json:"class"`          // dns-lower | dns-mixed | ipv4 | ipv6 | ipv6-bracketed ([v6] without a port) | odd
 	Port     bool   `json:"port,omitempty"` // Spelling carries a port
 	Canon    string `json:"canon"`          // identity of the named host (lower-case DNS name / unmapped IP)
 }
@@ -105,7 +106,14 @@ type Case struct {
 	Org   string `json:"org"`
 	CA    string `json:"ca,omitempty"`    // "" = RSA authority from mitm.NewAuthority, "ecdsa" = P-256 authority
 	Short bool   `json:"short,omitempty"` // validity 2 s instead of the default hour
-	// ValidityMs, when set, is the validity handed to SetValidity (implies Short)
+	// H2: HTTP/2 configuration of the Config. "" none, "all" an h2.Config whose
+	// AllowedHostsFilter accepts every authority, "even" one that accepts the
+	// authorities of even length. It changes the ALPN list TLSForHost
+	// announces; the certificate obligations are the same.
+	H2 string `json:"h2,omitempty"`
+	// ValidityMs, when set, is the validity handed to SetValidity: up to 10 s it
+	// behaves like Short (expiry can be crossed), above it is just configured -
+	// up to 292 years, the largest time.Duration
 	ValidityMs int    `json:"validity_ms,omitempty"`
 	Hosts      []Host `json:"hosts"`
 	Ops        []Op   `json:"ops"`
@@ -124,7 +132,10 @@ func (c Case) validity() time.Duration {
 	return 0
 }
 
-func (c Case) short() bool { return c.validity() > 0 }
+// short: a validity the history can wait out (expire steps, idle tunnels).
+// ValidityMs also carries the very long validities (years): those are set, but
+// never waited for.
+func (c Case) short() bool { return c.validity() > 0 && c.validity() <= 10*time.Second }
 
 // fixed decoys: no generated host ever has one of these identities.
 var fixedDecoys = []string{"c06-decoy.invalid", "192.0.2.77", "2001:db8::77"}
@@ -716,11 +727,24 @@ func (x *exec) hs(where string, api string, host int, sni string, tls12, std, he
 		return
 	}
 	if out.cerr != nil || out.serr != nil || !out.echoed {
-		class := "failed"
+		clause, class := "handshake", "failed"
 		if std && out.cerr != nil && len(out.raw) == 0 {
+			// the verifying client turned the certificate down: same classes as
+			// the manual oracle, so one defect has one signature
 			class = "client-verification-failed"
+			var he x509.HostnameError
+			var ie x509.CertificateInvalidError
+			var ue x509.UnknownAuthorityError
+			switch {
+			case errors.As(out.cerr, &he):
+				clause, class = "verify", "not-valid-for-host"
+			case errors.As(out.cerr, &ie) && ie.Reason == x509.Expired:
+				clause, class = "verify", "outside-validity-window"
+			case errors.As(out.cerr, &ue):
+				clause, class = "verify", "not-chained-to-ca"
+			}
 		}
-		x.fail("C06/handshake/"+e.shape+"/"+class, "%s (tls12=%v, client verifies itself=%v): client: %v, server: %v, application byte received: %v", where, tls12, std, out.cerr, out.serr, out.echoed)
+		x.fail("C06/"+clause+"/"+e.shape+"/"+class, "%s (tls12=%v, client verifies itself=%v): client: %v, server: %v, application byte received: %v", where, tls12, std, out.cerr, out.serr, out.echoed)
 		if len(out.raw) == 0 {
 			return
 		}
@@ -1013,7 +1037,13 @@ func run(check string, c Case) kit.Verdict {
 		return kit.Failf("C06/setup/new-config-error", "mitm.NewConfig: %v", err)
 	}
 	cfg.SetOrganization(c.Org)
-	if c.short() {
+	switch c.H2 {
+	case "all":
+		cfg.SetH2Config(&h2.Config{AllowedHostsFilter: func(string) bool { return true }})
+	case "even":
+		cfg.SetH2Config(&h2.Config{AllowedHostsFilter: func(a string) bool { return len(a)%2 == 0 }})
+	}
+	if c.validity() > 0 {
 		cfg.SetValidity(c.validity())
 	}
 	x := &exec{check: check, c: c, cfg: cfg, ca: auth, seen: map[string]bool{}, judged: map[judgedKey]bool{}, held: map[string]*tls.Config{}}
@@ -1051,6 +1081,7 @@ func run(check string, c Case) kit.Verdict {
 
 type caseInfo struct {
 	ip, v6bare, v6port, port, mixed, hit, crossing, conc, handshake, tls12, noName, sni, sniDiffers, std, apiTLS bool
+	v6bracketed                                                                                                  bool
 	odd, afterOdd, long                                                                                          bool
 	held, heldCrossing, tunnel, idleTunnel                                                                       bool
 }
@@ -1099,6 +1130,8 @@ func analyse(c Case) caseInfo {
 				} else {
 					ci.v6bare = true
 				}
+			case "ipv6-bracketed":
+				ci.ip, ci.v6bracketed = true, true
 			case "dns-mixed":
 				ci.mixed = true
 			}
@@ -1186,10 +1219,10 @@ func classes(c Case) []string {
 		on   bool
 		name string
 	}{
-		{ci.ip, "ip-literal"}, {ci.v6bare, "ipv6-bare"}, {ci.v6port, "ipv6-bracket-port"}, {ci.port, "host-port"},
+		{ci.ip, "ip-literal"}, {ci.v6bare, "ipv6-bare"}, {ci.v6port, "ipv6-bracket-port"}, {ci.v6bracketed, "ipv6-bracketed-no-port"}, {ci.port, "host-port"},
 		{ci.mixed, "mixed-case"}, {ci.hit, "cache-hit"}, {ci.crossing, "expiry-crossing"}, {ci.conc, "concurrent"},
 		{ci.handshake, "handshake"}, {ci.tls12, "tls12"}, {ci.noName, "no-name"}, {ci.sni, "sni"},
-		{ci.sniDiffers, "sni-differs-from-fallback"}, {ci.std, "std-client"}, {ci.apiTLS, "api-tls"}, {c.short(), "short-validity"}, {ci.odd, "unissuable-name"}, {ci.afterOdd, "request-after-unissuable-name"}, {ci.long, "long-history-160-plus-names"}, {ci.held, "held-config"}, {ci.heldCrossing, "held-config-across-expiry"}, {ci.tunnel, "proxy-tunnel"}, {ci.idleTunnel, "idle-tunnel-past-validity"}, {c.CA == "ecdsa", "ecdsa-authority"},
+		{ci.sniDiffers, "sni-differs-from-fallback"}, {ci.std, "std-client"}, {ci.apiTLS, "api-tls"}, {c.short(), "short-validity"}, {c.validity() > 24*time.Hour, "validity-over-a-day"}, {c.validity() > (1 << 62), "validity-over-146-years"}, {ci.odd, "unissuable-name"}, {ci.afterOdd, "request-after-unissuable-name"}, {ci.long, "long-history-160-plus-names"}, {ci.held, "held-config"}, {ci.heldCrossing, "held-config-across-expiry"}, {ci.tunnel, "proxy-tunnel"}, {ci.idleTunnel, "idle-tunnel-past-validity"}, {c.CA == "ecdsa", "ecdsa-authority"}, {c.H2 != "", "h2-configured"},
 	} {
 		if kv.on {
 			out = append(out, kv.name)
